@@ -604,6 +604,12 @@ func cellScopes(thorough bool) []Scope {
 		scs = append(scs, Scope{Name: "F-cells4x4:strip-with-slit-transposed", GS: GridSpec{Kind: "synth", Deepest: 1, Px: 1, Sub: 4, OffPx: [2]int64{0, 0}, TileWidth: 1},
 			Spec: lat.Spec{Explicit: tr, Valid: true}, IDSets: [][]int{{1}}, Cfgs: keepCfgs})
 	}
+	// the same kind of family on a three-level grid, all three ids requested together: thin frames around wide holes,
+	// so that the few-vertex shell picks up many centres from the hole's vertices and its snapped ring grows well
+	// beyond twice its length on the finest level while it collapses on the coarsest
+	multi := cellUnionFamily([]int64{1, 2, 19, 20, 37}, []int64{1, 2, 19, 20}, []int{0, 3}, both)
+	scs = append(scs, Scope{Name: "F-cells-multi:thin-frame", GS: synthGS(2, 4, [2]int64{8, 12}), Spec: lat.Spec{Explicit: multi, Valid: true}, IDSets: [][]int{{0, 1, 2}}, Cfgs: keepCfgs})
+	scs = append(scs, Scope{Name: "F-comb-multi", GS: synthGS(2, 4, [2]int64{8, 12}), Spec: lat.Spec{Explicit: combFamily(thorough), Valid: true}, IDSets: [][]int{{0, 1, 2}, {2, 0}}, Cfgs: keepCfgs})
 	for _, l := range ls {
 		scs = append(scs, Scope{Name: "F-cells:" + l.name, GS: synthGS(0, 4, [2]int64{3, 5}), Spec: lat.Spec{Explicit: cellUnionFamily(l.xs, l.ys, rots, both), Valid: true}, IDSets: [][]int{{0}}, Cfgs: keepCfgs})
 	}
@@ -686,6 +692,60 @@ func nestedOne(L, f, w, inset int64, opens []int64, moatRots []int, turn, shift,
 						}
 					}
 					shell, moat, hole2 = turn(shell), turn(moat), turn(hole2)
+				}
+			}
+		}
+	}
+	return out
+}
+
+// combFamily: a rectangular shell of four vertices and a hole whose side next to a shell edge is a comb of n
+// teeth, every tooth corner in another pixel of the pixel row that the shell edge runs through: the shell's
+// snapped ring picks up all of them (4 vertices become 4 + 2n + 2 and more).  Used on a three-level grid with all
+// ids requested: per-level work buffers sized from the input ring are outgrown on the finest level.
+func combFamily(thorough bool) [][][]ref.P {
+	teeth := []int{2, 3, 4, 5}
+	if thorough {
+		teeth = []int{1, 2, 3, 4, 5, 6, 8}
+	}
+	var out [][][]ref.P
+	for _, n := range teeth {
+		for _, off := range []int64{0, 1} {
+			W := int64(8*n + 16)
+			H := int64(48)
+			shell := rect(0, 0, W, H, false)
+			// hole, clockwise: up the left side, along the top, down the right side, back along the comb
+			hole := []ref.P{{4, 2}, {4, H - 8}, {W - 4, H - 8}, {W - 4, 2}}
+			for i := n - 1; i >= 0; i-- {
+				x := int64(8 + 8*i)
+				hole = append(hole, ref.P{x + 4, 2}, ref.P{x + 4, 6}, ref.P{x, 6}, ref.P{x, 2})
+			}
+			if ref.Area2(hole) > 0 {
+				for l, r := 0, len(hole)-1; l < r; l, r = l+1, r-1 {
+					hole[l], hole[r] = hole[r], hole[l]
+				}
+			}
+			for t := 0; t < 4; t++ {
+				for _, sr := range rotations(shell, allRot(4)) {
+					for _, hr := range rotations(hole, []int{0, len(hole) / 2}) {
+						s, h := make([]ref.P, len(sr)), make([]ref.P, len(hr))
+						for i, p := range sr {
+							s[i] = ref.P{p[0] + off, p[1] + off}
+						}
+						for i, p := range hr {
+							h[i] = ref.P{p[0] + off, p[1] + off}
+						}
+						if ref.HoleOK(s, nil, h) {
+							out = append(out, [][]ref.P{s, h})
+						}
+					}
+				}
+				// quarter turn about the origin, moved back into the positive quadrant
+				for i, p := range shell {
+					shell[i] = ref.P{H + W - p[1], p[0]}
+				}
+				for i, p := range hole {
+					hole[i] = ref.P{H + W - p[1], p[0]}
 				}
 			}
 		}
